@@ -70,7 +70,7 @@ def cases(tier, seed):
     for start in ("clean", "between-renames"):
         for bufsize in (1, 64):
             out.append({"engine": "interrupt", "start": start, "bufsize": bufsize, "npar": 2})
-    for alg in ("mcmc", "optimizer", "optimizer-lbfgs", "hmc-class", "mcmc+sigint", "optimizer+sigint", "optimizer-lbfgs+sigint"):  # +sigint: the user stops the run with Ctrl-C after two saves; whatever is written on the way out is a checkpoint write too  # Optimizer has two code paths (_run, _run_closure for LBFGS); HMC is the standalone sampler class
+    for alg in ("mcmc", "optimizer", "optimizer-lbfgs", "hmc-class", "mcmc+sigint", "optimizer+sigint", "optimizer-lbfgs+sigint", "optimizer+all", "optimizer-lbfgs+all", "optimizer+all-noext", "optimizer-lbfgs+all-noext"):  # +sigint: the user stops the run with Ctrl-C after two saves; whatever is written on the way out is a checkpoint write too  # Optimizer has two code paths (_run, _run_closure for LBFGS); HMC is the standalone sampler class
         out.append({"engine": "driver", "algorithm": alg, "bufsize": 64})
     return out
 
@@ -359,6 +359,8 @@ def run_driver(case, V, C, seen):
 
     alg = case["algorithm"]
     sigint = alg.endswith("+sigint")
+    every = "+all" in alg  # checkpoint_all: one file per epoch (documented option); "-noext": the name does not end in .json
+    name = NAME.replace(".json", ".ckpt") if alg.endswith("-noext") else NAME
     alg = alg.split("+")[0]
     joint = {"id": "joint", "type": "JointDistributionModel", "distributions": [
         {"id": "prior", "type": "Distribution", "distribution": "torch.distributions.Normal",
@@ -375,6 +377,9 @@ def run_driver(case, V, C, seen):
         spec[1].pop("convergence")
         if alg == "optimizer-lbfgs":
             spec[1].update(algorithm="torch.optim.LBFGS", options={"lr": 0.1, "max_iter": 2})
+        if every:
+            spec[1].update(checkpoint=name, checkpoint_all=True)
+            C["driver_runs_with_one_file_per_epoch"] = C.get("driver_runs_with_one_file_per_epoch", 0) + 1
     import signal
 
     def arm(vfs_):
@@ -440,6 +445,19 @@ def run_driver(case, V, C, seen):
                 pass
         C["crash_points"] += 1
         C["directory_states_checked"] += 1
+        if every:
+            # one file per epoch: whatever the names, once a checkpoint has been completed a complete one exists at every later moment
+            st = {}
+            for p_, b_ in vfs2.files.items():
+                try:
+                    json.loads(b_.decode())
+                    st[p_] = "complete"
+                except ValueError:
+                    st[p_] = "truncated"
+            seen.add(("driver", case["algorithm"]) + tuple(sorted(st.values())))
+            if "complete" not in st.values():
+                V.append(tt.viol("C18:driver:no-complete-checkpoint:%s:one-file-per-epoch" % alg, "%s run with checkpoint_all and name %s killed before operation %d/%d leaves no complete checkpoint: %s" % (alg, os.path.basename(name), k, total, st), state=st))
+            continue
         ok = False
         st = {}
         for suffix in ("", ".old", ".new"):
